@@ -400,8 +400,11 @@ static void gen_mutants(vrng *r)
     /* isolate host string */
     const char *hs = strchr(base, ':') + 1; size_t hl = strrchr(base, ':') - hs;
     memcpy(host, hs, hl); host[hl] = 0;
-    unsigned v = vrnd_n(r, 22);
+    unsigned v = vrnd_n(r, 23);
     switch (v) {
+    case 22: { /* the wildcard is the single character '*': anything longer that begins with it is not a host */
+        static const char *const w[] = { "*.example.com", "*1.2.3.4", "**", "*]", "*:1.2.3.4", "*a", "*.", "* ", "*[::1]", "*0" };
+        snprintf(full, sizeof full, "%s:%s:%u", tp->proto, w[vrnd_n(r, 10)], vrnd_n(r, 65536)); check_must_reject(full, "wildcard-with-a-tail"); break; }
     case 0: snprintf(full, sizeof full, "%s:%s:", tp->proto, host); check_must_reject(full, "port-empty"); break;
     case 1: snprintf(full, sizeof full, "%s:%s", tp->proto, h.type == xcm_addr_type_name || h.ip.family == AF_INET ? host : "[::1]");
             if (!strchr(full + strlen(tp->proto) + 1, ':') || full[strlen(full) - 1] == ']') check_must_reject(full, "port-absent"); break;
